@@ -201,7 +201,7 @@ namespace Givaro {
             num = Integer::zero;
             den = Integer::one;
         }
-        if (sign(d) > 0)
+        else if (sign(d) > 0)
         {
             num = n ;
             den = d ;
